@@ -350,6 +350,10 @@ def b_tuple(I, v=()):
 def b_set(I, v=()):
     if isinstance(v, SSet):
         return v
+    if isinstance(v, SList):
+        x = z3.Const(I.ctx.fresh_name("sx"), sort_of(v.ety))
+        i = z3.Int(I.ctx.fresh_name("si"))
+        return SSet(z3.Lambda([x], z3.Exists([i], z3.And(0 <= i, i < v.nz(), z3.Select(v.arr, i) == x))), v.ety)
     return {I.hashable(x) for x in I.concrete_iter(v)}
 
 
